@@ -176,6 +176,22 @@ func (h history) write(seed int64) ([]byte, map[string]int) {
 				gens[n]++
 			}
 		}
+		if ri > 0 && len(rv.Free) > 0 && r.Intn(3) == 0 {
+			// deletions written as never-reusable free entries outside the free list —
+			// only when no later revision defines one of these numbers again
+			again := false
+			for i := range rs.acts {
+				if rs.acts[i] != aDelete {
+					continue
+				}
+				for _, later := range h.revs[ri+1:] {
+					if a := later.acts[i]; a == aPlain || a == aPacked || a == aStream {
+						again = true
+					}
+				}
+			}
+			rv.FreeUnlinked = !again
+		}
 		if h.shuffle {
 			r.Shuffle(len(objs), func(i, j int) { objs[i], objs[j] = objs[j], objs[i] })
 		}
